@@ -235,7 +235,10 @@ KEY_TAGS = ["T", "T_DAG", "R_Z(0.5)", "U3(1,2,3)", "S[T", "S_DAG[T", "I[R_X(thet
             "R_Z(0.5) rec[-1", "a S[T", "[S[T", "T_DAGG", "XT", "T_", "_T", "R_Q(1)", "U3(1,2)", "not-a-Tgate", "T-gate",
             "aS[T", "9S_DAG[T", "aI[R_X(theta=0.5*pi)", "aR_Z(0.5)", "aU3(1,2,3)", "aT", "Ta", "T9", "S[T]a", "-T", "T-", ".T_DAG", "(T)",
             "x=R_Y(-.5)", "{U3(1,2,3)}", "#S[T", "*S_DAG[T", "!I[U3(theta=1*pi, phi=2*pi, lambda=3*pi)",
-            "R_Z(theta=0.5*pi)", "U3(theta=0.5*pi)", "theta", "pi", "I", "S", "S_DAG"]
+            "R_Z(theta=0.5*pi)", "U3(theta=0.5*pi)", "theta", "pi", "I", "S", "S_DAG",
+            # interpreted tags whose named parameters come in another order or carry another name (legal spellings: read by name)
+            "U3(theta=0.5*pi, lambda=0.25*pi, phi=-0.125*pi)", "U3(lambda=0.25*pi, phi=0.5*pi, theta=1.5*pi)",
+            "U3(phi=0.5*pi, theta=0.25*pi, lambda=0.125*pi)", "R_Z(angle=0.5*pi)", "R_X(phi=0.25*pi)"]
 PLAIN_TAGS = ["", "x", "tag", "a b c", "0.5", "p=0.1", "{}", "#", "a#b", "(x)", "=*+", "'", '"', "'''", "\\B", "a\\Cb",
               "\\n", "\\r", "a\\Bn", "\\Bx41", "[", "[[", "rec[-1", "a,b"]
 COMMENTS = ["", " # T gate", " # apply T_DAG then R_Z(0.5)", " # U3(1,2,3) [T] S[T]", "#T", " # I[R_X(theta=1*pi)]", "  # plain"]
